@@ -52,12 +52,18 @@ def run_configs(ctx, configs, nontrivial_keys, rule, assumptions,
            'configs': {}, 'exhaustive': False,
            'nontrivial_counters': {}}
     violations = []
-    per_cfg_budget = ctx.budget_s / max(1, len(configs))
+    weights = [e[5] if len(e) > 5 else 1.0 for e in configs]
+    wsum = sum(weights)
     impl_exc = 0
-    for name, cfg, depth, max_dev in configs:
-        spec = (spec_cls or CellSpec)(cfg)
+    for entry in configs:
+        name, cfg, depth, max_dev = entry[:4]
+        cls = entry[4] if len(entry) > 4 else (spec_cls or CellSpec)
+        spec = cls(cfg)
+        per_cfg_budget = ctx.budget_s * (entry[5] if len(entry) > 5
+                                         else 1.0) / wsum
         res = statex.bfs(spec, depth, max_dev=max_dev, workers=ctx.workers,
-                         time_cap=per_cfg_budget, progress=ctx.log)
+                         time_cap=per_cfg_budget, progress=ctx.log,
+                         init_histories=cfg.get('seeds', ((),)))
         cov['states'] += res.states
         cov['transitions'] += res.transitions
         cov['configs'][name] = {
@@ -102,8 +108,10 @@ def run_configs(ctx, configs, nontrivial_keys, rule, assumptions,
 
 
 def replay_config(ctx, configs, data, spec_cls=None):
-    cfgs = {name: cfg for name, cfg, _d, _m in configs}
-    spec = (spec_cls or CellSpec)(cfgs[data['config']])
+    cfgs = {e[0]: e for e in configs}
+    entry = cfgs[data['config']]
+    cls = entry[4] if len(entry) > 4 else (spec_cls or CellSpec)
+    spec = cls(entry[1])
     hist = [tuple(e) for e in data['history']]
     w = statex.build(spec, hist)
     seen = {}
